@@ -126,9 +126,9 @@ impl Sess {
             }));
             match r {
                 Err(p) => {
-                    // the stream is in an unknown state: never touch it again
+                    // the stream is in an unknown state: drop it (guarded) so that the reader lease is returned
                     let es = self.es.take();
-                    std::mem::forget(es);
+                    let _ = catch_unwind(AssertUnwindSafe(move || drop(es)));
                     self.ended = true;
                     return Err(Prob { ty: "panic", sig: json!({"kind": "panic_in_poll_next"}), desc: format!("EventStream::poll_next panicked: {}", panic_msg(p)) });
                 }
@@ -316,7 +316,7 @@ fn whole_run(ctx: &mut Ctx<'_>, raw: bool, seg: &[u8], tmo: bool) -> Result<Vec<
             if tmo {
                 let ends_esc = matches!(out.last(), Some(Item::Ev(v)) if v["t"] == "key" && v["c"][0] == "Esc" && v["m"] == 0);
                 if t0.elapsed() >= Duration::from_millis(15) && ends_esc {
-                    s.await_item_for(&mut out, Duration::from_millis(120))?;
+                    s.await_item_for(&mut out, Duration::from_millis(1500))?;
                 } else {
                     s.await_item(&mut out, "escape time-out (reference run)")?;
                 }
@@ -442,19 +442,13 @@ fn run_steps(ctx: &mut Ctx<'_>, case: &Value) -> Attempt {
                 // timer may have fired inside it
                 feed_slow = last_write.elapsed() >= Duration::from_millis(15);
                 out_ends_esc = matches!(out.last(), Some(Item::Ev(v)) if v["t"] == "key" && v["c"][0] == "Esc" && v["m"] == 0);
-                if feed_slow && out_ends_esc && steps.get(si + 1).map(|n| n["a"] == "timeout").unwrap_or(false) {
-                    let el = s.last_item_at.saturating_duration_since(last_write);
-                    if el < ESC_TIMEOUT && ends_esc {
-                        at.early.push((si + 1, el, steps[si + 1]["stale"].as_bool().unwrap_or(false)));
-                    }
-                }
                 r
             }
             "timeout" => {
                 esc_open = None;
                 let r = if feed_slow && out_ends_esc {
                     at.alt_timing = true;
-                    s.await_item_for(&mut out, Duration::from_millis(120))
+                    s.await_item_for(&mut out, Duration::from_millis(1500))
                 } else {
                     s.await_item(&mut out, "escape time-out")
                 };
@@ -837,14 +831,34 @@ fn main() {
     let mut cur = from;
     let mut fatal: Option<String> = None;
     let mut aborted: Option<usize> = None;
+    let mut restart = false;
+    let mut hangs = 0;
     loop {
         match rx.recv_timeout(Duration::from_secs(150)) {
             Ok(Msg::Start(i)) => cur = i,
-            Ok(Msg::Problem { ty, sig, desc, idx, step }) => rep.problem(&ty, sig, desc, &raws[idx], step),
+            Ok(Msg::Problem { ty, sig, desc, idx, step }) => {
+                if ty == "panic" {
+                    restart = true;
+                }
+                if ty == "hang" {
+                    hangs += 1;
+                }
+                rep.problem(&ty, sig, desc, &raws[idx], step)
+            }
             Ok(Msg::Stat(k, n)) => *stats.entry(k).or_insert(0) += n,
             Ok(Msg::Done { steps }) => {
                 rep.cases += 1;
                 rep.steps += steps;
+                if hangs >= 6 {
+                    // every hang costs the watchdog's 20 s: the verdict is clear, stop here
+                    rep.set("gave_up_after_hangs", json!(cur));
+                    break;
+                }
+                if restart && cur + 1 < raws.len() {
+                    // code under test panicked: whatever it left behind (reader lease, runtime) must not leak into later cases
+                    aborted = Some(cur);
+                    break;
+                }
             }
             Ok(Msg::Fatal(f)) => {
                 fatal = Some(f);
